@@ -463,7 +463,7 @@ package httpserver
 //@   modifies ghost:verbatimLines, ghost:formattedLines, ghost:held
 //@   ensures [formatted_once] formattedLines == old(formattedLines) + 1 && verbatimLines == old(verbatimLines)
 
-//@ unit new_replacer frames=on props=C20,C09 filter=`httpserver\.NewReplacer$`
+//@ unit new_replacer frames=on props=C20,C09,C04 filter=`httpserver\.NewReplacer$`
 //@ // The replacer a directive asks for substitutes ITS OWN marker for empty values (the log directive's "-"), reads the
 //@ // request and the recorder it was given, and shares the request-body capture and custom placeholders of the replacer
 //@ // already installed in the request context, if there is one.
@@ -475,6 +475,11 @@ package httpserver
 //@ func NewReplacer
 //@   requires r != nil
 //@   modifies Request.Body
+//@   // C04 "same body bytes": whoever reads the request body afterwards (the proxy relays it) reads it through io.TeeReader -
+//@   // every byte the source delivers, the copy for {request_body} on the side, capped by the limit writer - not through a
+//@   // reader of casket's own
+//@   at call io.TeeReader cover [body_is_teed_by_the_library_reader] r.Body != nil
+//@   at call io.TeeReader before [the_requests_own_body_is_the_source] arg0 == r.Body
 //@   ensures [own_empty_value_request_and_recorder] result != nil && (*replacer)(result).emptyValue == emptyValue && (*replacer)(result).request == r && (*replacer)(result).responseRecorder == rr
 
 //@ unit log_roller frames=on props=C08 filter=`httpserver\.LogRoller\)\.GetLogWriter$`
@@ -630,7 +635,7 @@ package httpserver
 //@   loop 1 invariant (t.matchHost(H()) == nil && branch == nil) ==> forall(i, 0, #i, br(i) == nil)
 //@   loop 1 invariant (t.matchHost(H()) == nil && branch != nil) ==> exists(j, 0, #i, branch == br(j) && forall(i, 0, j, br(i) == nil))
 
-//@ unit serve_http_routing frames=on props=C01,C06,C12 filter=`httpserver\.Server\)\.serveHTTP$`
+//@ unit serve_http_routing frames=on props=C01,C06,C12,C15 filter=`httpserver\.Server\)\.serveHTTP$`
 //@ ghost chainCalls int
 //@ ghost notFound int
 //@ extern invoke:(github.com/tmpim/casket/caskethttp/httpserver.Handler).ServeHTTP
@@ -664,6 +669,8 @@ package httpserver
 //@   // representation invariant of the server (established by NewServer/InspectServerBlocks, assumed here): every site the trie can return carries a TLS config
 //@   requires forallT(k, string, ret(0, s.vhosts.Match(k)) != nil ==> ret(0, s.vhosts.Match(k)).TLS != nil)
 //@   modifies ghost:chainCalls, ghost:notFound, Request.URL, Request.Close
+//@   // a site without a path of its own (the trie reports "/") sees the request path as it came - also its leading "//"
+//@   at call trimPathPrefix before [only_a_site_with_a_path_has_it_trimmed] arg1 != "/"
 //@   ensures [at_most_one_site] chainCalls <= old(chainCalls) + 1
 //@   ensures [no_site_no_handler] notFound > old(notFound) ==> (chainCalls == old(chainCalls) && result0 == 0 && notFound == old(notFound) + 1)
 //@   ensures [handler_or_refusal] chainCalls == old(chainCalls) ==> (result0 == 0 || result0 == 403)
